@@ -20,6 +20,9 @@ func init() {
 		c05Extras(c)
 		gMatchAck(c)
 	}})
+	register(&PropertyRule{ID: "C08", Explain: "structural necessary conditions of C08 (apply stream): see DESIGN.md §5 C08", Run: func(c *Check) {
+		gApply(c)
+	}})
 	register(&PropertyRule{ID: "C03", Explain: "structural necessary conditions of C03 (log matching): see DESIGN.md §5 C03", Run: func(c *Check) {
 		gTrunc(c)
 		gStable(c)
